@@ -103,6 +103,8 @@ def kani_part(prop, tier, only, scratch_tag):
                 sts = set(c["status"].upper() for c in cs)
                 if sts <= {"SUCCESS", "UNREACHABLE"} and "SUCCESS" in sts:
                     st = "discharged"
+                elif sts == {"UNREACHABLE"}:
+                    st = "unreachable"
                 elif "FAILURE" in sts:
                     st = "failed"
                 else:
@@ -126,6 +128,19 @@ def kani_part(prop, tier, only, scratch_tag):
                 else:
                     undecided.append("%s: check failed in repo code: %s @%s:%s" % (
                         h.name, d[:80], c["location"].get("file"), c["location"].get("line")))
+        # a clause that is unreachable in one harness (generic harness body instantiated where the case
+        # cannot occur) is fine if the same clause is discharged by another harness of this run
+        done_ids = set(o["name"].split("::", 1)[1] for o in obligations if o["status"] == "discharged")
+        keep = []
+        for o in obligations:
+            if o["status"] == "unreachable":
+                cid = o["name"].split("::", 1)[1]
+                if cid in done_ids:
+                    continue
+                o["status"] = "undecided"
+                undecided.append("%s is unreachable in every harness (vacuous clause)" % o["name"])
+            keep.append(o)
+        obligations[:] = keep
         # replay each violation while the scratch copy is still there
         for v in violations:
             h = v["harness"]
